@@ -55,3 +55,11 @@ func VerifDangling(g *Graph) map[string][]*GraphEdge {
 	}
 	return out
 }
+
+// VerifNodeDanglingParents returns the edges filed as issuer-less parents of n.
+func VerifNodeDanglingParents(n *GraphNode) []*GraphEdge {
+	if n.danglingParents == nil {
+		return nil
+	}
+	return n.danglingParents.Edges()
+}
